@@ -3,7 +3,7 @@
    variants, positional / option / flag fields, Option, default_value, default_value_t, explicit names, nested sub-commands, groups,
    hidden groups); `conv` is the field type's canonical parser. That the proc-macro emits what the model interprets is established
    only on the declarations generated and compiled each run (programs are sampled - stated in DESIGN.md and MANIFEST.json). *)
-From EC Require Import Base Model.Args Model.Cli Model.Derive Model.Group Spec.ArgSpec Spec.Session Proofs.ArgsProofs Proofs.DeriveProofs Proofs.SessionProofs Proofs.HelpProofs Proofs.SubcmdProofs Proofs.GroupProofs.
+From EC Require Import Base Generated.Codes Model.Args Model.Cli Model.Derive Model.Group Spec.ArgSpec Spec.Session Proofs.ArgsProofs Proofs.DeriveProofs Proofs.SessionProofs Proofs.HelpProofs Proofs.SubcmdProofs Proofs.GroupProofs.
 
 (* dispatch by name: unknown name <=> no variant has it; otherwise the FIRST variant with that name parses the arguments *)
 Theorem C09_unknown : forall fuel cmds name args, Forall (fun d => c_name d <> name) cmds -> parse_enum (S fuel) cmds name args = PErr EUnknown.
@@ -68,7 +68,7 @@ Theorem C09_subcommand_missing : forall ps c o t subs, c_sub c = Some (o, t, sub
   parse_cmd ps c [] =
   match build_fields (c_args c) [] with
   | inl er => PErr er
-  | inr fs => if o then POk (TV (c_name c) fs (Some None)) else PErr (EMissing [60;67;79;77;77;65;78;68;62])
+  | inr fs => if o then POk (TV (c_name c) fs (Some None)) else PErr (EMissing SUB_NAME_REQ)
   end.
 Proof. exact parse_cmd_sub_missing. Qed.
 Print Assumptions C09_subcommand_missing.
